@@ -2,7 +2,9 @@
 
 Decided by Barril/Props/C16.lean: generic theorems (any database with unique symbols, any pair
 "legacy spelling l / current symbol c") for GetInfo, Convert (numbers and lists), GetDefaultCategory,
-Quantity/ObtainQuantity, value-object creation, GetValue/GetValues, CreateCopy and AddCategory, plus
+Quantity/ObtainQuantity, value-object creation (with a value and WITHOUT one: the default value of the category
+converted to the unit, in categories registered with non-zero default value and limits), GetValue/GetValues,
+CreateCopy (numbers and lists), GetUnitName and AddCategory (with default value and limits), plus
 generated `decide +kernel` table theorems (no symbol is rewritten; every derived spelling is rewritten to
 its symbol and is a fixed point afterwards; symbols unique; categories named like a type belong to it)
 over the rows and the substitution list read from the current source.
@@ -25,7 +27,13 @@ RULE = ("exhaustive part: FixUnitIfIsLegacy on every symbol of the three self-bu
         "FractionScalar creation (no category, default category, every category of the type up to 3, a foreign "
         "and an unknown category), GetValue/CreateCopy/GetValues from 3 source units, Convert and Convert on "
         "list/tuple/ndarray from and to 3 other units and between the two spellings, AddCategory with the "
-        "spelling as valid and/or default unit; seeded part: strings glued from legacy/current fragments, "
+        "spelling as valid and/or default unit; for every derived spelling 4-6 categories registered for the case "
+        "on the private database (default unit: base / another / the aliased unit in both spellings; seeded NON-ZERO "
+        "default value, seeded limits and exclusivity incl. the rejected combinations) and in them Scalar/"
+        "FractionScalar/Array/FixedArray created WITHOUT a value in both spellings (then read in a third unit) and "
+        "Scalar/FractionScalar.CreateCopy(unit=) / ChangeScalars; GetUnitName, GetFormattedValue/GetFormatted(unit), Array/FixedArray."
+        "CreateCopy(unit=), FixedArray / Scalar((v,u)) / Scalar(cat,v,u) / FractionScalar(cat,v,u) construction; "
+        "seeded part: strings glued from legacy/current fragments, "
         "symbol pieces and noise through the rewrite, junk units and categories through every entry; "
         "distinct = distinct model line; non-trivial = the case contains a string that FixUnitIfIsLegacy rewrites")
 EXHAUSTIVE = {"quick": True, "thorough": True}
@@ -33,11 +41,15 @@ ASSUMPTIONS = [
     "the memo tables (_category_unit_valid, quantities_cache) are invisible (C07/C15): the model has none",
     "float results within K*eps*M of the exact model (checked, not proved); a value read in the legacy spelling "
     "of its own unit goes through from(to(x)) in floats and may differ from x by rounding",
-    "AddCategory: only the unit arguments are modelled (caption always passed, no limits, no from_category)",
+    "AddCategory: unit arguments, default value, limits and exclusivity flags are modelled (caption always passed, "
+    "no from_category)",
+    "GetFormatted(unit): the number is predicted by the model of GetValue and the formatted VALUE is compared between "
+    "the spellings; the suffix echoes the unit argument as written and is not compared; FractionScalar values have "
+    "a zero fractional part",
     "a legacy fragment that is the empty string is not modelled (str.replace('', x) inserts everywhere)",
 ]
 KINDS = ("posc", "nocat", "simple")
-UNIT_FIELDS = ("u", "unit", "to", "from", "default", "then_unit")
+UNIT_FIELDS = ("u", "unit", "to", "from", "default", "then_unit", "then_to")
 
 
 # ------------------------------------------------------------------------------------------- setup
@@ -76,7 +88,7 @@ def _case(op, **t):
     """t holds Python values; the model line is derived from it"""
     line = dict(op=op)
     for k, v in t.items():
-        if k in ("pair", "form", "container", "fresh", "tag"):
+        if k in ("pair", "form", "container", "fresh", "tag", "via"):
             continue
         if k in ("x",):
             line[k] = qstr(exact(v))
@@ -84,13 +96,17 @@ def _case(op, **t):
             line[k] = [qstr(exact(x)) for x in v]
         elif k == "valid":
             line[k] = None if v is None else [_s(u) for u in v]
-        elif k in ("fix_unknown", "fix_legacy", "override"):
+        elif k in ("fix_unknown", "fix_legacy", "override", "minx", "maxx"):
             line[k] = bool(v)
+        elif k in ("dv", "mn", "mx"):
+            line[k] = None if v is None else qstr(exact(v))
+        elif k == "dim":
+            line[k] = int(v)
         elif k == "db":
             line[k] = v
         else:
             line[k] = _s(v)
-    for k in ("form", "container", "tag"):
+    for k in ("form", "container", "tag", "via"):
         if k in t:
             line[k] = t[k]  # ignored by the driver; keeps distinct cases distinct
     line["_t"] = t
@@ -200,6 +216,110 @@ def _api_cases(ctx, kind, pairs, rng, wide):
                             then_unit=rng.choice([l, c]), pair=[l, c] if (l in (valid or []) or default == l) else None)
 
 
+def _limits(rng, dv):
+    """(dv, mn, mx, minx, maxx) of a category registration: mostly valid, non-zero default inside the limits"""
+    r = rng.random()
+    span = abs(dv) + 1.0
+    if r < 0.25:
+        return dv, None, None, False, False
+    if r < 0.45:
+        return dv, dv - span, None, rng.random() < 0.5, False
+    if r < 0.6:
+        return dv, None, dv + span, False, rng.random() < 0.5
+    if r < 0.8:
+        return dv, dv - span, dv + 2 * span, rng.random() < 0.3, rng.random() < 0.3
+    if r < 0.86:
+        return dv, dv, dv, False, False  # the default sits on both limits
+    if r < 0.9:
+        return None, dv, None, False, False  # no default value: the lower limit
+    if r < 0.93:
+        return None, None, dv, False, False  # ... the upper limit
+    if r < 0.95:
+        return None, dv, None, True, False  # RuntimeError: exclusive limit without a default
+    if r < 0.97:
+        return dv, dv + span, None, False, False  # AssertionError: default below the minimum
+    if r < 0.985:
+        return dv, dv, None, True, False  # AssertionError: default on an exclusive minimum
+    return dv, dv + span, dv - span, False, False  # ValueError: limits crossed
+
+
+def _valueless_cases(ctx, kind, pairs, rng, wide):
+    """value objects created WITHOUT a value (the default value of the category, which is expressed in the default
+    unit of the category, converted to the requested unit) and copies, in categories registered for the case on
+    the private database: non-zero default value, limits, every choice of default unit"""
+    db = ctx.dbs[kind]
+    for l, c in pairs:
+        qt = db.unit_to_unit_info[c].quantity_type
+        others = _others(db, qt, c, rng, 3 if wide else 2)
+        base = others[0] if others else c
+        # default unit of the registered category: not given (base unit), another unit, the aliased unit in both spellings
+        dunits = [None] + others[1:2] + [c, l] + ([rng.choice(others)] if wide and others else [])
+        for du in dunits:
+            dv = rng.choice([1000.0, 2.5, -3.0, 5.0e6, 0.125, round(rng.uniform(1, 1e4), 3), -round(rng.uniform(1, 50), 2)])
+            dv, mn, mx, minx, maxx = _limits(rng, dv)
+            valid = rng.choice([None, None, [l, base], [c, base] + others[1:2]])
+            if valid is not None and du is not None and rng.random() < 0.8:
+                valid = valid + [du]
+            reg = dict(db=kind, qt=qt, valid=valid, default=du, caption="Cap", override=False,
+                       dv=dv, mn=mn, mx=mx, minx=minx, maxx=maxx)
+            then = rng.choice(others + [c, l, None])
+            forms = ["scalar", "fraction", "array", "fixed"] if (wide or du in (None, c, l)) else ["scalar", rng.choice(["fraction", "array", "fixed"])]
+            for u in (l, c):
+                in_reg = l in (valid or []) or du == l
+                for form in forms:
+                    ctx.counter[0] += 1
+                    yield _case("valueless", name="c16 dv %d" % ctx.counter[0], unit=u, form=form, dim=rng.randint(2, 4),
+                                then_to=then,
+                                pair=[l, c] if (u == l or in_reg or then == l) else None, **reg)
+                ctx.counter[0] += 1
+                src = rng.choice(others + [c])
+                yield _case("regcopy", name="c16 dv %d" % ctx.counter[0], unit=src, x=rng.choice([dv or 1.5, 1.5, -2.25, 37.0]),
+                            to=u, via=rng.choice(["createcopy", "changescalars", "fraction"]),
+                            pair=[l, c] if (u == l or in_reg) else None, **reg)
+        # no unit at all: the default unit and the unconverted default value
+        ctx.counter[0] += 1
+        yield _case("valueless", name="c16 dv %d" % ctx.counter[0], db=kind, qt=qt, valid=None, default=l, caption="Cap",
+                    override=False, dv=12.5, mn=None, mx=None, minx=False, maxx=False, unit=None,
+                    form=rng.choice(["scalar", "fraction", "array", "fixed"]), dim=2, then_to=l, pair=[l, c])
+        # junk unit / unit of another type
+        ctx.counter[0] += 1
+        yield _case("valueless", name="c16 dv %d" % ctx.counter[0], db=kind, qt=qt, valid=None, default=c, caption="Cap",
+                    override=False, dv=12.5, mn=0.0, mx=None, minx=False, maxx=False,
+                    unit=rng.choice(["nope", l + "x", "", "<unknown>"]), form=rng.choice(["scalar", "fraction", "array", "fixed"]),
+                    dim=2, then_to=None)
+
+
+def _more_entry_cases(ctx, kind, pairs, rng, wide):
+    """entry points that take a unit string and were not driven before: GetUnitName, GetFormatted/GetFormattedValue,
+    Array/FixedArray.CreateCopy(unit=), FixedArray/tuple/category-first construction"""
+    db = ctx.dbs[kind]
+    types = sorted(db.quantity_types)
+    for l, c in pairs:
+        qt = db.unit_to_unit_info[c].quantity_type
+        cats = ctx.cats_of_type[kind].get(qt, [])
+        defcat = db.GetDefaultCategory(c)
+        srccat = defcat or (cats[0] if cats else None)
+        others = _others(db, qt, c, rng, 2)
+        foreign_t = rng.choice([t for t in types if t != qt])
+        xs = [rng.uniform(-100, 100) for _ in range(rng.randint(2, 4))]
+        x = rng.choice([1.5, -2.25, 37.0, 1e6 * rng.random()])
+        for u in (l, c):
+            p = [l, c] if u == l else None
+            for qarg in [qt, (cats or [qt])[0], foreign_t, "no such type"]:
+                yield _case("unitname", db=kind, qt=qarg, unit=u, pair=p)
+            for cat in [None] + ([srccat] if srccat else []) + ["no such category"]:
+                for form in ("fixed", "tuple", "catfirst", "fraction_catfirst"):
+                    if (form == "tuple" and cat is not None) or (form in ("catfirst", "fraction_catfirst") and cat is None):
+                        continue
+                    yield _case("obtain", db=kind, unit=u, cat=cat, form=form, pair=p)
+            if srccat:
+                for src in others + [c]:
+                    yield _case("formatted", db=kind, cat=srccat, unit=src, x=x, to=u, pair=p, tag="formatted")
+                    for form in ("array", "fixed"):
+                        yield _case("copyl", db=kind, cat=srccat, unit=src, xs=xs, to=u, form=form,
+                                    container=rng.choice(["list", "tuple", "ndarray"]), pair=p)
+
+
 def _both_legacy(ctx, kind, rng, n):
     """conversions with two legacy-spelled units of one type"""
     db = ctx.dbs[kind]
@@ -265,6 +385,10 @@ def _all_cases(ctx, tier, salt):
     for k in KINDS:
         yield from _api_cases(ctx, k, ctx.pairs[k], rng, thorough)
         yield from _both_legacy(ctx, k, rng, 6 if thorough else 2)
+    rng2 = ctx.fresh_rng("C16valueless" + salt)
+    for k in KINDS:
+        yield from _valueless_cases(ctx, k, ctx.pairs[k], rng2, thorough)
+        yield from _more_entry_cases(ctx, k, ctx.pairs[k], rng2, thorough)
     yield from _junk_cases(ctx, ctx.fresh_rng("C16junk" + salt), 4000 if thorough else 600)
 
 
@@ -273,7 +397,10 @@ def cases(ctx):
 
 
 def model_line(c):
-    return {k: v for k, v in c.items() if k != "_t"}
+    d = {k: v for k, v in c.items() if k != "_t"}
+    if d["op"] == "formatted":  # predicted by the model of GetValue (the tag keeps the case distinct)
+        d["op"] = "getvalue"
+    return d
 
 
 def case_key(c):
@@ -301,7 +428,7 @@ def _floats(r):
 
 def _run(op, t, ctx):
     """Execute one entry on the real code; returns Python objects (dict) or raises."""
-    from barril.units import Array, FractionScalar, ObtainQuantity, Scalar
+    from barril.units import Array, FixedArray, FractionScalar, ObtainQuantity, Scalar
     from barril.units.unit_database import FixUnitIfIsLegacy, UnitDatabase
 
     if op == "fix":
@@ -315,6 +442,61 @@ def _run(op, t, ctx):
         return dict(unit=i.unit, qtype=i.quantity_type)
     if op == "defcat":
         return dict(cat=db.GetDefaultCategory(t["unit"]))
+    if op == "unitname":
+        return dict(name=db.GetUnitName(t["qt"], t["unit"]))
+    if op in ("valueless", "regcopy"):
+        try:
+            info = db.AddCategory(t["name"], t["qt"], valid_units=t["valid"], override=t["override"],
+                                  default_unit=t["default"], default_value=t["dv"], min_value=t["mn"], max_value=t["mx"],
+                                  is_min_exclusive=t["minx"], is_max_exclusive=t["maxx"], caption=t["caption"])
+        except Exception as e:
+            raise _RegisterError(err_kind(e))
+        UnitDatabase.PushSingleton(db)
+        try:
+            if op == "regcopy":
+                try:
+                    s = (FractionScalar if t["via"] == "fraction" else Scalar)(t["x"], t["unit"], t["name"])
+                except Exception as e:
+                    raise _SourceError(err_kind(e))
+                if t["via"] == "changescalars":
+                    from barril.units import ChangeScalars
+
+                    class Owner:
+                        pass
+
+                    owner = Owner()
+                    owner.attr = s
+                    ChangeScalars(owner, attr=(None, t["to"]))
+                    o = owner.attr
+                else:
+                    o = s.CreateCopy(unit=t["to"])
+                return dict(cat=o.GetCategory(), unit=o.GetUnit(), x=float(o.GetValue()), obj=o)
+            form, u, name = t["form"], t["unit"], t["name"]
+            kw = {} if u is None else dict(unit=u)
+            if form == "scalar":
+                o = Scalar(name, **kw)
+            elif form == "fraction":
+                o = FractionScalar(name, **kw)
+            elif form == "array":
+                o = Array(name, **kw)
+            else:
+                o = FixedArray(t["dim"], name, **kw)
+            out = dict(cat=o.GetCategory(), unit=o.GetUnit(), obj=o, dvalue=float(info.default_value), dunit=info.default_unit)
+            if form in ("scalar", "fraction"):
+                out["x"] = float(o.GetValue())
+            else:
+                out["xs"] = _floats(o.GetValues())
+            if t["then_to"] is not None:
+                try:
+                    if form in ("scalar", "fraction"):
+                        out["then"] = dict(x=float(o.GetValue(t["then_to"])))
+                    else:
+                        out["then"] = dict(xs=_floats(o.GetValues(t["then_to"])))
+                except Exception as e:
+                    out["then"] = dict(err=err_kind(e))
+            return out
+        finally:
+            UnitDatabase.PopSingleton()
     if op == "convert":
         r = db.Convert(t["cq"], t["from"], t["to"], t["x"])
         return dict(x=float(r))
@@ -349,6 +531,18 @@ def _run(op, t, ctx):
             if form == "array":
                 o = Array([1.5, 2.5], t["unit"], t["cat"]) if t["cat"] is not None else Array([1.5, 2.5], t["unit"])
                 return dict(cat=o.GetCategory(), unit=o.GetUnit(), obj=o, val_ok=(list(o.GetValues()) == [1.5, 2.5]))
+            if form == "fixed":
+                o = FixedArray(2, t["cat"], [1.5, 2.5], t["unit"]) if t["cat"] is not None else FixedArray(2, [1.5, 2.5], t["unit"])
+                return dict(cat=o.GetCategory(), unit=o.GetUnit(), obj=o, val_ok=(list(o.GetValues()) == [1.5, 2.5]))
+            if form == "tuple":
+                o = Scalar((1.5, t["unit"]))
+                return dict(cat=o.GetCategory(), unit=o.GetUnit(), obj=o, val_ok=(o.GetValue() == 1.5))
+            if form == "catfirst":
+                o = Scalar(t["cat"], 1.5, t["unit"])
+                return dict(cat=o.GetCategory(), unit=o.GetUnit(), obj=o, val_ok=(o.GetValue() == 1.5))
+            if form == "fraction_catfirst":
+                o = FractionScalar(t["cat"], 1.5, t["unit"])
+                return dict(cat=o.GetCategory(), unit=o.GetUnit(), obj=o, val_ok=(float(o.GetValue()) == 1.5))
             o = FractionScalar(1.5, t["unit"], t["cat"]) if t["cat"] is not None else FractionScalar(1.5, t["unit"])
             return dict(cat=o.GetCategory(), unit=o.GetUnit(), obj=o, val_ok=(float(o.GetValue()) == 1.5))
         if op == "getvalue":
@@ -361,12 +555,27 @@ def _run(op, t, ctx):
         if op == "getvalues":
             a = _source(Array, _container(t["xs"], t["container"]), t)
             return dict(xs=_floats(a.GetValues(t["to"])))
+        if op == "formatted":
+            s = _source(Scalar, t["x"], t)
+            return dict(x=float(s.GetValue(t["to"])), fmt=s.GetFormattedValue(t["to"]), full=s.GetFormatted(t["to"]))
+        if op == "copyl":
+            vals = _container(t["xs"], t["container"])
+            try:
+                a = Array(vals, t["unit"], t["cat"]) if t["form"] == "array" else FixedArray(len(t["xs"]), t["cat"], vals, t["unit"])
+            except Exception as e:
+                raise _SourceError(err_kind(e))
+            o = a.CreateCopy(unit=t["to"])
+            return dict(cat=o.GetCategory(), unit=o.GetUnit(), xs=_floats(o.GetValues()), obj=o, same_class=type(o) is type(a))
     finally:
         UnitDatabase.PopSingleton()
     raise ValueError("unknown op %r" % op)
 
 
 class _SourceError(Exception):
+    pass
+
+
+class _RegisterError(Exception):
     pass
 
 
@@ -388,6 +597,26 @@ def _canon(op, r):
         return dict(ok=_s(r["cat"]), is_none=r["cat"] is None)
     if op in ("convert", "getvalue"):
         return dict(ok=float(r["x"]).hex())
+    if op == "formatted":
+        return dict(ok=float(r["x"]).hex(), fmt=r["fmt"], full=r["full"])
+    if op == "unitname":
+        return dict(ok=_s(r["name"]))
+    if op == "copyl":
+        return dict(ok=dict(cat=_s(r["cat"]), unit=_s(r["unit"]), xs=[float(v).hex() for v in r["xs"]]), same_class=r["same_class"])
+    if op == "regcopy":
+        return dict(ok=dict(cat=_s(r["cat"]), unit=_s(r["unit"]), x=float(r["x"]).hex()))
+    if op == "valueless":
+        ok = dict(cat=_s(r["cat"]), unit=_s(r["unit"]))
+        if "x" in r:
+            ok["x"] = float(r["x"]).hex()
+        else:
+            ok["xs"] = [float(v).hex() for v in r["xs"]]
+        out = dict(ok=ok, dvalue=float(r["dvalue"]).hex(), dunit=_s(r["dunit"]))
+        if "then" in r:
+            th = r["then"]
+            out["then"] = (dict(err=th["err"]) if "err" in th else
+                           dict(ok=float(th["x"]).hex()) if "x" in th else dict(ok=[float(v).hex() for v in th["xs"]]))
+        return out
     if op in ("convertl", "getvalues"):
         return dict(ok=[float(v).hex() for v in r["xs"]])
     if op == "obtain":
@@ -409,6 +638,8 @@ def impl(c, ctx):
         out = _canon(op, _run(op, t, ctx))
     except _SourceError as e:
         out = dict(err=str(e), at="source")
+    except _RegisterError as e:
+        out = dict(err=str(e), at="register")
     except Exception as e:
         out = dict(err=err_kind(e))
     key = "%s/%s/%s" % (op, "legacy" if t.get("pair") else "plain", out.get("err", "ok"))
@@ -445,7 +676,50 @@ def agree(c, io, mo, ctx):
         if io["is_none"] != (b is None):
             return "None-ness of the default category differs"
         return None if io["is_none"] or a == b else "default category differs"
-    if op in ("convert", "getvalue"):
+    if op == "unitname":
+        return None if a == b else "unit name differs: impl=%r model=%r" % (unsym(int(a)), unsym(int(b)))
+    if op == "valueless":
+        if a["cat"] != b["cat"] or a["unit"] != b["unit"]:
+            return "value-less object: quantity differs: impl=(%s,%s) model=(%s,%s)" % (
+                unsym(int(a["cat"])), unsym(int(a["unit"])), unsym(int(b["cat"])), unsym(int(b["unit"])))
+        if io["dunit"] != mo["dunit"] or exact(float.fromhex(io["dvalue"])) != qparse(mo["dvalue"]):
+            return "registered default differs: impl=(%r,%s) model=(%s,%s)" % (
+                float.fromhex(io["dvalue"]), unsym(int(io["dunit"])), mo["dvalue"], unsym(int(mo["dunit"])))
+        if ("x" in a) != ("x" in b):
+            return "value-less object: one side has a number, the other a list"
+        if "x" in a:
+            if not _num_ok(a["x"], b["x"], mo["M"]):
+                return "default value in the unit: impl %r, model %s" % (float.fromhex(a["x"]), float(qparse(b["x"])))
+        else:
+            if len(a["xs"]) != len(b["xs"]) or any(exact(float.fromhex(x)) != qparse(y) for x, y in zip(a["xs"], b["xs"])):
+                return "default values differ: impl %r model %r" % (a["xs"], b["xs"])
+        ta, tb = io.get("then"), mo.get("then")
+        if (ta is None) != (tb is None):
+            return "then-step present on one side only"
+        if ta is not None:
+            if ("err" in ta) != ("err" in tb):
+                return "then-step: one side fails: impl=%s model=%s" % (ta, tb)
+            if "err" in ta:
+                return None if ta["err"] == tb["err"] else "then-step error kinds differ: impl=%s model=%s" % (ta["err"], tb["err"])
+            if isinstance(ta["ok"], list):
+                if len(ta["ok"]) != len(tb["ok"]) or not all(_num_ok(x, y, tb["M"]) for x, y in zip(ta["ok"], tb["ok"])):
+                    return "then-step values differ"
+            elif not _num_ok(ta["ok"], tb["ok"], tb["M"]):
+                return "then-step value: impl %r, model %s" % (float.fromhex(ta["ok"]), float(qparse(tb["ok"])))
+        return None
+    if op == "regcopy":
+        if a["cat"] != b["cat"] or a["unit"] != b["unit"]:
+            return "copy quantity differs"
+        return None if _num_ok(a["x"], b["x"], mo["M"]) else "copy value differs"
+    if op == "copyl":
+        if not io.get("same_class", True):
+            return "the copy is of another class"
+        if a["cat"] != b["cat"] or a["unit"] != b["unit"]:
+            return "copy quantity differs"
+        if len(a["xs"]) != len(b["xs"]) or not all(_num_ok(x, y, mo["M"]) for x, y in zip(a["xs"], b["xs"])):
+            return "copy values differ"
+        return None
+    if op in ("convert", "getvalue", "formatted"):
         if c["_t"].get("from", c["_t"].get("unit")) == c["_t"]["to"]:
             return None if exact(float.fromhex(a)) == qparse(b) else "same-unit value not exact"
         return None if _num_ok(a, b, mo["M"]) else "value %r not within K*eps*M of %s" % (float.fromhex(a), float(qparse(b)))
@@ -507,8 +781,29 @@ def _same(op, rl, rc):
         if "val_ok" in rl and not rl["val_ok"]:
             return False
         return rl["obj"] == rc["obj"] and rl["unit"] == rc["unit"] and rl["cat"] == rc["cat"]
-    if op == "copy":
+    if op in ("copy", "regcopy"):
         return rl["unit"] == rc["unit"] and rl["cat"] == rc["cat"] and _near(rl["x"], rc["x"])
+    if op == "copyl":
+        return (rl["unit"] == rc["unit"] and rl["cat"] == rc["cat"] and len(rl["xs"]) == len(rc["xs"])
+                and all(_near(a, b) for a, b in zip(rl["xs"], rc["xs"])))
+    if op == "formatted":  # the conversion result, as a number and as formatted; the suffix echoes the argument
+        return _near(rl["x"], rc["x"]) and rl["fmt"] == rc["fmt"]
+    if op == "valueless":
+        if (rl["unit"], rl["cat"], rl["dunit"]) != (rc["unit"], rc["cat"], rc["dunit"]) or not _near(rl["dvalue"], rc["dvalue"]):
+            return False
+        if "x" in rl:
+            if not _near(rl["x"], rc["x"]):
+                return False
+        elif len(rl["xs"]) != len(rc["xs"]) or not all(_near(a, b) for a, b in zip(rl["xs"], rc["xs"])):
+            return False
+        tl, tc = rl.get("then"), rc.get("then")
+        if tl is None or tc is None or "err" in tc:
+            return tl is None and tc is None or (tc is not None and "err" in tc)
+        if "err" in tl:
+            return False
+        if "x" in tl:
+            return _near(tl["x"], tc["x"])
+        return len(tl["xs"]) == len(tc["xs"]) and all(_near(a, b) for a, b in zip(tl["xs"], tc["xs"]))
     if op == "addcat":
         return (rl["valid"], rl["default"], rl["qtype"], rl["then"]) == (rc["valid"], rc["default"], rc["qtype"], rc["then"])
     return {k: v for k, v in rl.items() if k != "obj"} == {k: v for k, v in rc.items() if k != "obj"}
@@ -561,6 +856,10 @@ def oracle(c, ctx):
         ctx.counter[0] += 2
         t = dict(t, name="c16 oracle %d" % ctx.counter[0])
         t_cur = dict(t_cur, name="c16 oracle %d" % (ctx.counter[0] + 1))
+    if op in ("valueless", "regcopy"):  # one fresh name, registered again (override) for the second spelling
+        ctx.counter[0] += 1
+        t = dict(t, name="c16 oracle %d" % ctx.counter[0], override=True)
+        t_cur = dict(t_cur, name=t["name"], override=True)
     if op in ("convert", "convertl") and t_cur["from"] == t_cur["to"]:
         # between the two spellings of one unit: the current spelling takes the same-unit shortcut, which does
         # not even look at the category; the property speaks only when the category/type has the unit
